@@ -466,6 +466,62 @@ def coq_check(name, model, items, ok_fun, ctx, shard=500):
         bad.extend(n * shard + i for i in idx)
     return bad, f"{len(files)} case files"
 
+
+def kernel_validation(ctx, rng):
+    """(T) the translated get_field_alias evaluated in Coq vs the original staticmethod called in Python."""
+    import typing
+    from typing_extensions import Annotated
+    from mashumaro.config import BaseConfig
+    from mashumaro.core.meta.code.builder import CodeBuilder
+    from mashumaro.types import Alias
+    real = getattr(CodeBuilder, "_CodeBuilder__get_field_alias", None)
+    if real is None:
+        ctx.not_shown("translation validation K4", "CodeBuilder.__get_field_alias not found")
+        return
+    items, shown = [], []
+    pool = ["a", "b", "x", "y", "", "None", "alias", "it's"]
+    for i in range(ctx.budget(300, 3000)):
+        n = rng.choice(NAMES)
+        meta = rng.choice(pool) if rng.random() < 0.4 else None
+        ann = None
+        if rng.random() < 0.6:
+            ann = [("alias", rng.choice(pool)) if rng.random() < 0.6 else ("other",) for _ in range(rng.randrange(1, 4))]
+        al = {m: rng.choice(pool) for m in NAMES if rng.random() < 0.4}
+        ftype = int if ann is None else Annotated[tuple([int] + [Alias(a[1]) if a[0] == "alias" else "other" for a in ann])]
+        md = {}
+        if rng.random() < 0.3:
+            md["description"] = "d"
+        if meta is not None:
+            md["alias"] = meta
+        cfg = type("Config", (BaseConfig,), {"aliases": al})
+        try:
+            got = real(n, ftype, md, cfg)
+        except Exception as e:
+            got = f"<{type(e).__name__}>"
+        f = {"name": n, "meta": meta, "ann": ann, "cfg": None, "dflt": False, "ty": "int"}
+        spec = {"fields": [f], "allow": False, "forbid": False, "discr": None, "mixin": True}
+        cl = c_spec(spec).replace("[] false false None)", "[" + "; ".join(f"({coq_str(k)}, {coq_str(v)})" for k, v in al.items())
+                                  + "] false false None)")
+        items.append((i, f"Definition c{i} : cls := {cl}.",
+                      f"(c{i}, [], OMissing {coq_str('' if got is None else 'S' + got)}, {vlib.coq_bool(got is None)})"))
+        shown.append((n, md, ann, al, got))
+        ctx.count(("k4", i))
+    okf = ("fun c => match c with (cl, _, o, isnone) => match c_fields cl, o with "
+           "| [f], OMissing e => match impl_alias cl f with "
+           "  | Ok KNone => isnone | Ok (KStr s) => negb isnone && String.eqb (String \"S\" s) e | _ => false end "
+           "  && (match alias_of cl f with None => isnone | Some s => negb isnone && String.eqb (String \"S\" s) e end) "
+           "| _, _ => false end end")
+    bad, log = coq_check("c09_k4", ("KeyModel KeyImpl PyK_alias", "From VerifGen Require Import K4.", ["theories/KeyImpl.vo"]),
+                         items, okf, ctx)
+    name = "K4.get_field_alias-translation-vs-python"
+    if bad is None:
+        ctx.correspondence(name, len(items), -1, log)
+        ctx.not_shown("translation validation K4", log)
+    else:
+        ctx.correspondence(name, len(items), len(bad), str([shown[i] for i in bad[:5]]))
+        if bad:
+            ctx.not_shown("translation validation K4", f"inputs {[shown[i] for i in bad[:5]]}")
+
 # ---------------------------------------------------------------------------
 # the check
 # ---------------------------------------------------------------------------
@@ -545,6 +601,8 @@ def run(ctx: vlib.Ctx):
             ctx.not_shown("coqchk VerifProps.C09_keys", out[-1500:])
 
     rng = ctx.rng
+    if k4_ok:
+        kernel_validation(ctx, rng)
     n_classes = ctx.budget(260, 500)
     sub_max = ctx.budget(32, 256)
     forced = [{"allow": a, "forbid": b, "mixin": m, "nf": nf} for a in (False, True) for b in (False, True)
@@ -647,6 +705,7 @@ def run(ctx: vlib.Ctx):
             ctx.not_shown("correspondence " + name, det)
 
     n = len(coq_cases)
+    n_dom = sum(1 for c in cases if in_domain(c[0]))     # the reference is compared inside the domain only
     n_impl, n_ref = "impl-model(K4)-vs-from_dict", "keymodel(reference)-vs-from_dict"
     if k4_ok:
         bad, log = coq_check("c09_both", IMPL, coq_cases, ok_both, ctx)
@@ -657,16 +716,16 @@ def run(ctx: vlib.Ctx):
             b1, l1 = coq_check("c09_impl", IMPL, sub_cases, ok_impl, ctx)
             b2, l2 = coq_check("c09_ref", REF, sub_cases, ok_ref, ctx)
             report(n_impl, None if b1 is None else [sub[i] for i in b1], l1, n)
-            report(n_ref, None if b2 is None else [sub[i] for i in b2], l2, n)
+            report(n_ref, None if b2 is None else [sub[i] for i in b2], l2, n_dom)
         else:
             report(n_impl, [], log, n)
-            report(n_ref, [], log, n)
+            report(n_ref, [], log, n_dom)
     else:
         ctx.correspondence(n_impl, n, -1, "kernel K4 did not translate")
         ctx.not_shown("correspondence " + n_impl, "kernel K4 did not translate: "
                       + str(ctx.kernel_report.get("K4", {}).get("error")))
         bad, log = coq_check("c09_ref", REF, coq_cases, ok_ref, ctx)
-        report(n_ref, bad, log, n)
+        report(n_ref, bad, log, n_dom)
     ctx.notes.append(f"oracle mismatches (incl. listed findings): {n_mismatch_oracle}")
 
 
